@@ -74,6 +74,8 @@ func C11(c *Ctx) {
 	c.R.Rule("C11-R5", "E5", "the caller's context reaches every execution", 5)
 	c.R.Rule("C11-R6", "E3", "the runtime's call depth is bounded before the program runs", 1)
 	c.R.Rule("C11-R7", "E3", "the call returns only after the watcher has ended", 1)
+	c.R.Rule("C11-R8", "E5", "hosts hand on the context they are given", 3)
+	c11HostContexts(c)
 	exec := c.fn("interpreters/ecmascript", "Interpreter", "Exec")
 	if exec == nil {
 		return
@@ -426,6 +428,7 @@ func C11(c *Ctx) {
 			wg     bool
 		}
 		var sigs []sig
+		shared := false
 		wpd := flow.NewPostDom(watchFn)
 		ssau.Instrs(watchFn, func(in ssa.Instruction) {
 			var cm *ssa.CallCommon
@@ -466,7 +469,23 @@ func C11(c *Ctx) {
 				atEnd = true
 			}
 			if atEnd {
-				sigs = append(sigs, sig{norm(x), wg})
+				// the signal belongs to this execution: a channel made, or a WaitGroup declared, in this call
+				ls := norm(x)
+				own := len(ls) > 0
+				for _, l := range ls {
+					switch d := l.(type) {
+					case *ssa.MakeChan:
+					case *ssa.Alloc:
+						_ = d
+					default:
+						own = false
+					}
+				}
+				if own {
+					sigs = append(sigs, sig{ls, wg})
+				} else {
+					shared = true
+				}
 			}
 		})
 		same := func(a, b []ssa.Value) bool {
@@ -522,6 +541,9 @@ func C11(c *Ctx) {
 		ga := anchor(watchGo, 0)
 		ok := ga != nil && len(sigs) > 0 && len(waitBlocks) > 0
 		why := "the watcher does not signal its end (close, send or WaitGroup.Done as its last act), or Exec never waits for that signal"
+		if shared && len(sigs) == 0 {
+			why = "the watcher signals its end through something that is not created in this execution (a field or a package-level WaitGroup / channel): executions running at the same time wait for each other's watchers"
+		}
 		if ok {
 			start := ga.Block()
 			for _, b := range frame.Blocks {
